@@ -65,11 +65,13 @@ Fixpoint utf8_valid (s : bytes) : bool :=
   end.
 
 (** strip one trailing LF and then one trailing CR (reader.rs:264) *)
+(* [rev'] is the linear-time reversal ([List.rev] is quadratic, which matters for very long lines) *)
+Definition rev' (l : bytes) : bytes := rev_append l [].
 Definition strip_eol (l : bytes) : bytes :=
-  match rev l with
+  match rev' l with
   | x :: r => if x =? LF
               then match r with
-                   | y :: r' => if y =? CR then rev r' else rev r
+                   | y :: r' => if y =? CR then rev' r' else rev' r
                    | [] => []
                    end
               else l
